@@ -153,3 +153,18 @@ example (P : Prims) (O : OutPrims) (fs : FS) : firstFailure (mkCtx P O strictCfg
     [97, 10] _ (c07Ex_run P O fs)
   cases hse
   exact hff
+
+/-- `run_fails_at_firstFailure` on bytes: `a⏎{{ y }}` (strict variables, start line 1) compiles to a text at
+    line 1 and an object at line 2; `run` fails (`c07_ex_render`), and `firstFailure` is the object -/
+example (P : Prims) (O : OutPrims) (fs : FS) :
+    firstFailure (mkCtx P O strictCfg fs 1) [.text 1 [97, 10], .obj 2 (.var [121])] [] = some ⟨2, true⟩ :=
+  run_fails_at_firstFailure P O strictCfg fs 1 [97, 10, 123, 123, 32, 121, 32, 125, 125] 1 [] _ _ rfl (c07_ex_render P O fs)
+
+/-- `run_error_line_ge_start` on the same bytes: the start line 1 is at most the error's line 2 -/
+example (P : Prims) (O : OutPrims) (fs : FS) : 1 ≤ (⟨2, true, .other "undefinedVariable", .byCause⟩ : SErr).line :=
+  run_error_line_ge_start P O strictCfg fs 1 [97, 10, 123, 123, 32, 121, 32, 125, 125] 1 [] _ (by decide) (c07_ex_render P O fs)
+
+/-- `render_error_line_nonzero` on `c07ExRoot`: include-free, tags and objects at lines 2 and 3 -/
+example (P : Prims) (O : OutPrims) (fs : FS) :
+    ∃ se, RawErr.located ⟨3, true, .other "undefinedVariable", .byCause⟩ = .located se ∧ se.line ≠ 0 ∧ se.pathSet = true :=
+  render_error_line_nonzero P O strictCfg fs 1 c07ExRoot (by decide) (by decide) [] _ _ (c07Ex_run P O fs)
